@@ -7,7 +7,7 @@ import TypedpyModel.Lemmas.EqLemmas
 set_option linter.unusedVariables false
 set_option linter.unusedSimpArgs false
 namespace Typedpy
-open PyVal (pyEq pyEqList subsetBy anyEqL dictSub attrsSub)
+open PyVal (pyEq pyEqList subsetBy anyEqL dictSub)
 
 theorem rebuildVs_eq_map (S : SetOrder) : ∀ xs : List PyVal,
     rebuildVs S xs = xs.map (rebuildV S)
@@ -56,10 +56,11 @@ theorem pyEq_rebuildV (S : SetOrder) (hS : MemPreserving S) :
     intro p hp
     exact ⟨_, List.mem_map.2 ⟨p, hp, rfl⟩, (ih p hp).1, (ih p hp).2⟩
   · intro c a ih
-    simp only [rebuildV, pyEq, rebuildAttrs_eq_map, List.length_map, beq_self_eq_true, Bool.true_and,
-      attrsSub_iff]
-    intro p hp
-    exact ⟨_, List.mem_map.2 ⟨p, hp, rfl⟩, rfl, ih p hp⟩
+    simp only [rebuildV, rebuildAttrs_eq_map]
+    refine (pyEq_inst_iff _ _ _ _).2 ⟨rfl, fun p hp => Or.inr ⟨_, List.mem_map.2 ⟨p, hp, rfl⟩, rfl, ih p hp⟩,
+      fun q hq => ?_⟩
+    obtain ⟨p, hp, rfl⟩ := List.mem_map.1 hq
+    exact Or.inr ⟨p, hp, rfl, ih p hp⟩
 
 theorem lookup_map_val {α β} (f : α → β) (k : String) : ∀ l : List (String × α),
     lookup k (l.map (fun p => (p.1, f p.2))) = (lookup k l).map f
